@@ -918,6 +918,50 @@ theorem digest_depth_mismatch_counterexample :
     ∧ divergentBuckets (fromState idealH true canonicalStream 0 [1, 2] exA) (fromState idealH true canonicalStream 1 [1, 2] exA) = [0, 1] := by
   decide
 
+/-! ## what one round guarantees under ANY limit
+
+The code keeps no cursor between rounds, so nothing better than this can be said about a round
+whose limit is below the candidate population: each side is sent exactly the first `limit`
+candidates of the other side (in key order on the simulator path), those keys end merged, every
+other key is untouched — and the next round starts from the same prefix (the starvation finding). -/
+
+theorem getKeysInBuckets_keys_nodup (arr : Arrange) (harr : ArrOK arr) (H : Hasher) (vs : ValueStream) (depth limit : Nat)
+    (π : List Nat) (s : NMap RV) (div : List Nat) (hs : NMap.WF s) (hπ : ValidOrder π s) :
+    ((getKeysInBuckets arr H vs depth limit π s div).map (·.1)).Nodup := by
+  rw [getKeysInBuckets_eq_take]
+  have hp : ((arr (candidates H depth π s div)).map (·.1)).Nodup :=
+    (((harr (candidates H depth π s div)).map (·.1)).nodup_iff).mpr (candidates_keys_nodup div hs hπ)
+  exact List.Nodup.sublist ((List.take_sublist _ _).map _) hp
+
+/-- **C18 (one round, exactly)**: for every limit, every arrangement, every pair of iteration
+    orders: after `run_anti_entropy_sync` a key holds `merge(own, other's)` iff the OTHER side sent
+    it — i.e. iff it is among the first `limit` arranged candidates of the other side — and is
+    unchanged otherwise.  (With `limit ≥` population this is `sync_merges`.) -/
+theorem sync_round_exact (arr : Arrange) (harr : ArrOK arr) (H : Hasher) (sb : Bool) (vs : ValueStream) (depth limit : Nat)
+    (πa πb : List Nat) (a b : NMap RV) (ha : NMap.WF a) (hb : NMap.WF b) (hπa : ValidOrder πa a) (hπb : ValidOrder πb b)
+    (hd : differsFrom (fromState H sb vs depth πa a) (fromState H sb vs depth πb b) = true)
+    (hne : (divergentBuckets (fromState H sb vs depth πa a) (fromState H sb vs depth πb b)).isEmpty = false) (k : Nat) :
+    let div := divergentBuckets (fromState H sb vs depth πa a) (fromState H sb vs depth πb b)
+    let r := syncRoundWith arr H sb vs depth limit πa πb a b
+    NMap.get r.1 k = (match (getKeysInBuckets arr H vs depth limit πb b div).lookup k with
+                      | some v => some (mergeInto (NMap.get a k) v)
+                      | none => NMap.get a k)
+    ∧ NMap.get r.2 k = (match (getKeysInBuckets arr H vs depth limit πa a div).lookup k with
+                        | some v => some (mergeInto (NMap.get b k) v)
+                        | none => NMap.get b k) := by
+  intro div r
+  have hr : r = exchange arr H vs depth limit πa πb a b div := by
+    show syncRoundWith arr H sb vs depth limit πa πb a b = _
+    unfold syncRoundWith
+    simp only [hd, if_true]
+    have : (divergentBuckets (fromState H sb vs depth πa a) (fromState H sb vs depth πb b)).isEmpty = false := hne
+    simp [this, div]
+  rw [hr]
+  unfold exchange
+  simp only []
+  exact ⟨get_applyDeltas _ a k (getKeysInBuckets_keys_nodup arr harr H vs depth limit πb b div hb hπb),
+    get_applyDeltas _ b k (getKeysInBuckets_keys_nodup arr harr H vs depth limit πa a div ha hπa)⟩
+
 /-! ## the protocol as a state machine: late, duplicated and concurrent messages
 
 `AE.Mgr` models `AntiEntropyManager` with its bookkeeping; digests, requests and responses are
